@@ -39,7 +39,7 @@ var properties = map[string]Property{}
 func init() {
 	properties["C05"] = Property{
 		Level: "exploration",
-		Rule:  "one case = (pattern, data, initial bindings, Go-typing mode); patterns are derived from the data (drop keys/elements, substitute variables with repeats, perturb constants), data derived from patterns, or independent; non-trivial = the reference matcher yields >=1 binding and the pattern has a variable or nested structure; distinct by canonical JSON of the case; also through /api/sys/util/match and Env.match for every 7th plain case; look-alike scalars; dynamic type and object identity of the initial bindings before/after (with an extra Go-typed binding the pattern never mentions)",
+		Rule:  "one case = (pattern, data, initial bindings, Go-typing mode); patterns are derived from the data (drop keys/elements, substitute variables with repeats, perturb constants), data derived from patterns, or independent; non-trivial = the reference matcher yields >=1 binding and the pattern has a variable or nested structure; distinct by canonical JSON of the case; also through /api/sys/util/match and Env.match for every 7th plain case; look-alike scalars; dynamic type and object identity of the initial bindings before/after (with an extra Go-typed binding the pattern never mentions); one pattern map object refilled and matched again (`judgeReuse`)",
 		Floor: [2]int{2000, 20000},
 		Assumptions: []string{"the 60-line reference matcher lib/ref.Match is the specification of partial matching (maps may have extra keys, arrays are sets, repeated variables need deep-equal values)",
 			"inputs stay inside the documented fragment (arrays of distinct scalars with at most one variable, or arrays of maps; data holds no variable-looking strings - those belong to C13)"},
@@ -70,7 +70,7 @@ func init() {
 func init() {
 	properties["C08"] = Property{
 		Level: "exploration",
-		Rule:  "one case = (dependency graph, deletion prefix, state kind) observed after the deletion: GetFact of every id ever used, StateSize, ListRules and the MemStorage contents compared with the model closure; graphs over <=7 ids (chains, fans, cycles, self-loops, dangling targets, rules, `disabled` property facts, variable-looking ids); deletion by RemFact, RemRule, of absent ids, and by expiry (ttl 1 s observed after 2.2 s); non-trivial = the deletion removed >=2 ids in the model; distinct by canonical JSON of (state, operation list); reload steps between building and deleting, before the expiry instant and after it (item expiring while unloaded)",
+		Rule:  "one case = (dependency graph, deletion prefix, state kind) observed after the deletion: GetFact of every id ever used, StateSize, ListRules and the MemStorage contents compared with the model closure; graphs over <=7 ids (chains, fans, cycles, self-loops, dangling targets, rules, `disabled` property facts, variable-looking ids); deletion by RemFact, RemRule, of absent ids, and by expiry (ttl 1 s observed after 2.2 s); non-trivial = the deletion removed >=2 ids in the model; distinct by canonical JSON of (state, operation list); reload steps between building and deleting, before the expiry instant and after it (item expiring while unloaded); a quarter of the facts are written by a script (Env.AddFact)",
 		Floor: [2]int{200, 2000},
 		Assumptions: []string{"lib/ref.Loc.Rem (worklist closure; Rem of an absent id still cascades, as both implementations and the manual do) is the specification", "per-call watchdog of 20 s decides 'terminates'"},
 		Stages: []Stage{{Name: "cascade", Pkg: "./mon/c08", Procs: 1, Batches: [2]int{8, 16}, TimeoutS: [2]int{600, 3000}}},
@@ -80,7 +80,7 @@ func init() {
 func init() {
 	properties["C10"] = Property{
 		Level: "exploration",
-		Rule:  "one case = (lifecycle walk prefix, location, rule id) observed by a full ProcessEvent whose action values name the rule version that ran, plus RuleEnabled and ListRules; walks of 10-25 steps over add/overwrite/RemRule/RemFact/overwrite-by-fact/disable/enable/reload/location off+on on 2 ids, every third walk with the rules in a parent and flags in the child; non-trivial = the step changed which versions must fire somewhere; distinct by canonical JSON of (state, walk prefix, location, id); the disabled-location probes include evaluate! and trigger! events",
+		Rule:  "one case = (lifecycle walk prefix, location, rule id) observed by a full ProcessEvent whose action values name the rule version that ran, plus RuleEnabled and ListRules; walks of 10-25 steps over add/overwrite/RemRule/RemFact/overwrite-by-fact/disable/enable/reload/location off+on on 2 ids, every third walk with the rules in a parent and flags in the child; non-trivial = the step changed which versions must fire somewhere; distinct by canonical JSON of (state, walk prefix, location, id); the disabled-location probes include evaluate! and trigger! events; `faultyRemoval`: RemRule of a disabled rule with its k-th storage call failing (k=1..4), then events live and after reload",
 		Floor: [2]int{200, 2000},
 		Assumptions: []string{"the model: the disabled flag belongs to the id (can be set before the rule exists), is cleared by removal of the id, survives reload; duplicate ids across child and parent are the documented error"},
 		Stages: []Stage{{Name: "lifecycle", Pkg: "./mon/c10", Procs: 2, Batches: [2]int{8, 16}, TimeoutS: [2]int{900, 3600}}},
@@ -100,7 +100,7 @@ func init() {
 func init() {
 	properties["C04"] = Property{
 		Level: "exploration",
-		Rule:  "one case = one processed event in a generated world (0-4 rules with 1-3 actions each, `when` patterns with an array variable giving several bindings, conditions giving 0-3 bindings, serial and concurrent policy, failing action variants, both states); three records of the executions (Env.out side channel, tree nodes, values) are compared with the expected multiset; non-trivial = >=2 executions expected; distinct by canonical JSON of (state, rules, facts, event); run under the Go race detector; every ok-action marks its `event` and reports whether it found it unmarked (private copies), the event in the tree is compared with the submitted one; `triggered`: ordinary / trigger! / evaluate! / one-shot runs of rules whose body carries an id of its own; `reservedVars`: `when` variables named ?location / ?ruleId / ?event",
+		Rule:  "one case = one processed event in a generated world (0-4 rules with 1-3 actions each, `when` patterns with an array variable giving several bindings, conditions giving 0-3 bindings, serial and concurrent policy, failing action variants, both states); three records of the executions (Env.out side channel, tree nodes, values) are compared with the expected multiset; non-trivial = >=2 executions expected; distinct by canonical JSON of (state, rules, facts, event); run under the Go race detector; every ok-action marks its `event` and reports whether it found it unmarked (private copies), the event in the tree is compared with the submitted one; `triggered`: ordinary / trigger! / evaluate! / one-shot runs of rules whose body carries an id of its own; `reservedVars`: `when` variables named ?location / ?ruleId / ?event; a failing action stops the walk only in a serial rule (worlds mix serial rules with failing actions of other rules); names of the triggered scenario vary per round",
 		Floor: [2]int{100, 1000},
 		Assumptions: []string{"expected multiset computed with lib/ref.Match and lib/ref.Eval", "action scripts come from a template that returns its visible environment"},
 		Stages: []Stage{{Name: "actions", Pkg: "./mon/c04", Race: true, Procs: 4, Batches: [2]int{4, 12}, TimeoutS: [2]int{900, 3600}}},
@@ -110,7 +110,7 @@ func init() {
 func init() {
 	properties["C19"] = Property{
 		Level: "exploration",
-		Rule:  "one case = (operation, protection state, caller, state kind, generated initial content): 26 operations (direct, from RunJavascript, from a rule action, the removal of a one-shot scheduled rule at the end of its triggered run) x {none, writeKey, readKey, both, readOnly, disabled} x {no key, wrong key, right key} x {indexed, linear}; refused => error and identical raw storage and live items; allowed => same result and resulting state as an unprotected twin; second matrix: 8 inherited reads (search, list and search rules, query, JS search/query, event dispatch, a child rule whose condition reads the parent) issued at an unprotected child whose PARENT is {unprotected, read key, both keys, write key, disabled} x callers x states: without the parent's read key nothing of the parent is revealed, an error is reported and both storages are unchanged; non-trivial = protection state != none; distinct by (state, protection, caller, op, content seed); protection is set in three ways by round (SetProp, property fact without id, property fact under a caller-chosen id)",
+		Rule:  "one case = (operation, protection state, caller, state kind, generated initial content): 26 operations (direct, from RunJavascript, from a rule action, the removal of a one-shot scheduled rule at the end of its triggered run) x {none, writeKey, readKey, both, readOnly, disabled} x {no key, wrong key, right key} x {indexed, linear}; refused => error and identical raw storage and live items; allowed => same result and resulting state as an unprotected twin; second matrix: 8 inherited reads (search, list and search rules, query, JS search/query, event dispatch, a child rule whose condition reads the parent) issued at an unprotected child whose PARENT is {unprotected, read key, both keys, write key, disabled} x callers x states: without the parent's read key nothing of the parent is revealed, an error is reported and both storages are unchanged; non-trivial = protection state != none; distinct by (state, protection, caller, op, content seed); protection is set in three ways by round (SetProp, property fact without id, property fact under a caller-chosen id); protections readOnly+writeKey and readOnly+both; the same matrix through sys.System (18 operations incl. SetParents with empty and nil lists, ClearLocation, DeleteLocation)",
 		Floor: [2]int{200, 2000},
 		Assumptions: []string{"the matrix of DESIGN §5 C19: write operations need the write key / are refused when read-only; operations that reveal facts or rules need the read key; a disabled location refuses everything; RuleEnabled/GetParents/SetProp/StateSize-when-disabled are outside the matrix"},
 		Stages: []Stage{{Name: "matrix", Pkg: "./mon/c19", Procs: 2, Batches: [2]int{4, 8}, TimeoutS: [2]int{900, 3600}}},
@@ -120,7 +120,7 @@ func init() {
 func init() {
 	properties["C14"] = Property{
 		Level: "exploration",
-		Rule:  "one case = (script from 5 families, timeout setting {location control 50-300 ms, system default 400 ms, timeouts disabled}, position {RunJavascript, rule condition, rule action}, state kind); non-terminating => error/non-complete node, return not before the limit and (canary-judged) within 12 s of it; throwing/invalid => error, never success; finishing => expected value with exactly its bindings visible; non-trivial = script is throwing, invalid or non-terminating, or a timeout is configured; distinct by the case tuple; `siblingScopes` (or/and/not over scripts that return objects; an action reports whether it sees a sibling's variable) and `libraryScripts` (the same text with library twice / none / thrice / broken in three orders as action, condition and RunJavascript)",
+		Rule:  "one case = (script from 5 families, timeout setting {location control 50-300 ms, system default 400 ms, timeouts disabled}, position {RunJavascript, rule condition, rule action}, state kind); non-terminating => error/non-complete node, return not before the limit and (canary-judged) within 12 s of it; throwing/invalid => error, never success; finishing => expected value with exactly its bindings visible; non-trivial = script is throwing, invalid or non-terminating, or a timeout is configured; distinct by the case tuple; `siblingScopes` (or/and/not over scripts that return objects; an action reports whether it sees a sibling's variable) and `libraryScripts` (the same text with library twice / none / thrice / broken in three orders as action, condition and RunJavascript); getter-valued results (finishing and looping), thrown objects with a throwing toString, `encodedScripts` (opts.encoding none / empty / base64), `oversleep` (Env.sleep beyond the limit: listed finding)",
 		Floor: [2]int{30, 100},
 		Assumptions: []string{"bounded progress is judged against a canary timer in the same Go runtime: only when the canary fired on time and the call is still blocked 12 s later is it a violation; a late canary makes the case inconclusive", "scripts blocked inside a host function (Env.sleep(1e12)) are out of reach: otto can only be interrupted between statements"},
 		Stages: []Stage{
@@ -137,7 +137,7 @@ func init() {
 	}
 	properties["C13"] = Property{
 		Level: "exploration",
-		Rule:  "one case = one hostile document (grammar: wrong types under reserved keys, variable-looking strings as data/keys/ids, empty and up-to-64-deep containers, heterogeneous arrays, raw non-JSON bodies) through one entry point (AddFact, AddRule, RemFact, GetFact, SearchFacts, SearchRules, Query, ProcessEvent, ListRules) of core.Location, sys.System or the HTTP service (httptest), both states, each followed by canary traffic (AddFact/GetFact/ProcessEvent of a fixed rule) on the same location; oracle: returns within 25 s, no panic, HTTP answers, canary still works; non-trivial = the document touches a reserved key, has a variable-looking string or depth >= 8; distinct by canonical JSON of the call; (batch 0) `storedVarStrings`: facts holding variable-looking strings stay stored while queries, rule conditions and searches using the same variable names run; `hostileScripts`: 39 scripts calling the Env functions with absent / ill-typed / malformed arguments as action and as condition; raw bodies include empty JSON-typed parameters",
+		Rule:  "one case = one hostile document (grammar: wrong types under reserved keys, variable-looking strings as data/keys/ids, empty and up-to-64-deep containers, heterogeneous arrays, raw non-JSON bodies) through one entry point (AddFact, AddRule, RemFact, GetFact, SearchFacts, SearchRules, Query, ProcessEvent, ListRules) of core.Location, sys.System or the HTTP service (httptest), both states, each followed by canary traffic (AddFact/GetFact/ProcessEvent of a fixed rule) on the same location; oracle: returns within 25 s, no panic, HTTP answers, canary still works; non-trivial = the document touches a reserved key, has a variable-looking string or depth >= 8; distinct by canonical JSON of the call; (batch 0) `storedVarStrings`: facts holding variable-looking strings stay stored while queries, rule conditions and searches using the same variable names run; `hostileScripts`: 39 scripts calling the Env functions with absent / ill-typed / malformed arguments as action and as condition; raw bodies include empty JSON-typed parameters; unusual variable names ('?who(', '?a[', …) in rules with endpoint actions and script actions",
 		Floor: [2]int{1000, 10000},
 		Assumptions: []string{"per-call watchdog 25 s for operations that take milliseconds", "the strict canary (canary rule fired) is applied only while no hostile item with a `rule` key is stored, otherwise the canary only has to return without panic", "the process-fatal sheens recursion (same repeated variable string in pattern and datum) is confined to a dedicated child; pattern-position documents get fresh, non-repeated variable names"},
 		Stages: []Stage{c13("loc", [2]int{4, 8}), c13("sys", [2]int{2, 4}), c13("http", [2]int{2, 4}), c13("sheens", [2]int{1, 1})},
@@ -147,7 +147,7 @@ func init() {
 func init() {
 	properties["C12"] = Property{
 		Level: "exploration",
-		Rule:  "one case = one recorded history: 2-6 clients x 4-8 operations on 3 shared ids of one location (families: facts; rules+events; rules+enable+events; facts and rules on the same ids), unique written values, seeded delays at the verifhook points in two thirds of the histories, final reads of every id from the live and from a reloaded location; checked by porcupine against the sequential model (60 s timeout => inconclusive) and run under the race detector; non-trivial = >=2 clients overlapped in time and >=1 read observed a value written by another client; distinct by (seed, history index); plus `clearVsWrites` (4 writers and a clearer on a storage whose Clear is slow: live = reloaded, writes ordered against the last Clear) and `searchVsAdds` (ids with a past that left dangling term entries, 3 searchers and 3 adders, then a search must find every acknowledged fact, live and reloaded)",
+		Rule:  "one case = one recorded history: 2-6 clients x 4-8 operations on 3 shared ids of one location (families: facts; rules+events; rules+enable+events; facts and rules on the same ids), unique written values, seeded delays at the verifhook points in two thirds of the histories, final reads of every id from the live and from a reloaded location; checked by porcupine against the sequential model (60 s timeout => inconclusive) and run under the race detector; non-trivial = >=2 clients overlapped in time and >=1 read observed a value written by another client; distinct by (seed, history index); plus `clearVsWrites` (4 writers and a clearer on a storage whose Clear is slow: live = reloaded, writes ordered against the last Clear) and `searchVsAdds` (ids with a past that left dangling term entries, 3 searchers and 3 adders, then a search must find every acknowledged fact, live and reloaded); every other block of 8 histories runs on a state with cron.AddHooks; `expiringItems`: rules with an expiry dispatched and fetched, expired facts searched and fetched by 6 clients at once",
 		Floor: [2]int{50, 500},
 		Assumptions: []string{"the sequential model in mon/c12 (a map id -> fact/rule plus disabled flags) is the specification", "a strict-model failure that the relaxed model pe-two-instant accepts is attributed to the open finding c12.pe-two-instant", "schedules are sampled (stress + injected delays), not enumerated"},
 		Stages: []Stage{{Name: "histories", Pkg: "./mon/c12", Race: true, Procs: 8, Batches: [2]int{4, 8}, TimeoutS: [2]int{1200, 3600}, HangIsViolation: true}},
@@ -167,7 +167,7 @@ func init() {
 func init() {
 	properties["C20"] = Property{
 		Level: "exploration",
-		Rule:  "cases: (a) one add/remove history of 8-23 steps around MaxFacts in 1..6 on ids max+2 wide (facts, rules, overwrites at the boundary), both states, plus rounds of 8-15 concurrent adders (facts only / rules only / mixed; every other round starts one below the maximum); (b) one breaker run: limit 1-20, interval 40-400 ms, 1-16 concurrent callers, arrival patterns burst+slow poll / burst+fast poll (faster than interval/20) / steady / random over 3 intervals, every Zap logged with [before, after] and checked offline for the sliding-window bound and for recovery; (c) one throttle run: 8-63 submitters, pending limit 1-4, Pending() sampled and, independently, the submissions seen waiting at one instant counted by a probe around the throttle's breaker (a submission is certainly waiting between its first and its last attempt); non-trivial = the limit was reached (an add refused / a poll refused / a submission overflowed); distinct by the run's parameters and history; breaker runs also through core.HTTPRequest.Do against a local endpoint with the breaker registered by host or URL (admitted = reached the endpoint, refused = 430); a quarter of the throttle runs disable the breaker, another quarter the throttle (no pending bound judged there)",
+		Rule:  "cases: (a) one add/remove history of 8-23 steps around MaxFacts in 1..6 on ids max+2 wide (facts, rules, overwrites at the boundary), both states, plus rounds of 8-15 concurrent adders (facts only / rules only / mixed; every other round starts one below the maximum); (b) one breaker run: limit 1-20, interval 40-400 ms, 1-16 concurrent callers, arrival patterns burst+slow poll / burst+fast poll (faster than interval/20) / steady / random over 3 intervals, every Zap logged with [before, after] and checked offline for the sliding-window bound and for recovery; (c) one throttle run: 8-63 submitters, pending limit 1-4, Pending() sampled and, independently, the submissions seen waiting at one instant counted by a probe around the throttle's breaker (a submission is certainly waiting between its first and its last attempt); non-trivial = the limit was reached (an add refused / a poll refused / a submission overflowed); distinct by the run's parameters and history; breaker runs also through core.HTTPRequest.Do against a local endpoint with the breaker registered by host or URL (admitted = reached the endpoint, refused = 430); a quarter of the throttle runs disable the breaker, another quarter the throttle (no pending bound judged there); property-shaped adds (`addProp`) in the capacity histories",
 		Floor: [2]int{30, 300},
 		Assumptions: []string{"breaker verdicts use only interval arithmetic on monotonic [before, after] stamps: a rate violation needs limit+1 admissions with max(after)-min(before) < interval; a recovery violation needs a refused poll whose `before` is later than every earlier admission's `after` + interval + 2 ticks", "a starved period in which every gap between consecutive polls is shorter than interval/20 is the open finding c20.breaker-slide-drops-remainder"},
 		Stages: []Stage{
@@ -194,7 +194,7 @@ func init() {
 func init() {
 	properties["C07"] = Property{
 		Level: "exploration",
-		Rule:  "one case = one timed scenario: item kind {fact, rule} x expiry encoding {expires numeric, expires RFC3339, ttl number, ttl duration, none} x state x observation schedule (reads by get/search/dispatch/list, reloads before and after the expiry instant, reload late enough to expose a restarted ttl, reads dense around the boundary second), expiry 3-4 s ahead, 60 scenarios in parallel on separate locations; plus already-expired writes; every observation carries [before, after] in UNIX seconds; non-trivial = at least one observation certainly before and one certainly after the expiry instant; distinct by the scenario tuple; one schedule per item uses a single observation kind (dispatch only for rules) so that nothing else touches the item between write and expiry",
+		Rule:  "one case = one timed scenario: item kind {fact, rule} x expiry encoding {expires numeric, expires RFC3339, ttl number, ttl duration, none} x state x observation schedule (reads by get/search/dispatch/list, reloads before and after the expiry instant, reload late enough to expose a restarted ttl, reads dense around the boundary second), expiry 3-4 s ahead, 60 scenarios in parallel on separate locations; plus already-expired writes; every observation carries [before, after] in UNIX seconds; non-trivial = at least one observation certainly before and one certainly after the expiry instant; distinct by the scenario tuple; one schedule per item uses a single observation kind (dispatch only for rules) so that nothing else touches the item between write and expiry; never-expiring bystanders next to every timed item (must be complete at the end, live and stored); encodings also RFC3339 with +03:00 / -05:00 offsets, int64 ttl, ttl written by a script",
 		Floor: [2]int{24, 60},
 		Assumptions: []string{"the code's clock is whole seconds: an observation straddling the expiry second is accepted either way", "a rule with an RFC3339 expires is refused by AddRule (Rule.expires is a number); a refused write is recorded, not judged"},
 		Stages: []Stage{{Name: "timed", Pkg: "./mon/c07", Procs: 4, Batches: [2]int{1, 2}, TimeoutS: [2]int{300, 900}}},
@@ -204,7 +204,7 @@ func init() {
 func init() {
 	properties["C09"] = Property{
 		Level: "exploration",
-		Rule:  "one case = one step of a history over a forest of 3-6 locations (through a SimpleLocationProvider of core.Locations and through sys.System, both states): facts, rules, removals, EnableRule flags for inherited rules and SetParents (chains, fans, two parents, diamonds); after the step the own view (get, non-inherited search) and the inherited view (inherited search as a multiset, inherited rule list, dispatch of 2 probe events) of EVERY location are compared with the model; plus 16 loop cases (self, length 2, length 3, loop not through the start) in their own child; non-trivial = the forest has >=1 parent edge; distinct by canonical JSON of (entry point, state, history prefix); every third history uses the same fact ids in all locations; events carrying an embedded rule are sent with a Context the client used for another location before",
+		Rule:  "one case = one step of a history over a forest of 3-6 locations (through a SimpleLocationProvider of core.Locations and through sys.System, both states): facts, rules, removals, EnableRule flags for inherited rules and SetParents (chains, fans, two parents, diamonds); after the step the own view (get, non-inherited search) and the inherited view (inherited search as a multiset, inherited rule list, dispatch of 2 probe events) of EVERY location are compared with the model; plus 16 loop cases (self, length 2, length 3, loop not through the start) in their own child; non-trivial = the forest has >=1 parent edge; distinct by canonical JSON of (entry point, state, history prefix); every third history uses the same fact ids in all locations; events carrying an embedded rule are sent with a Context the client used for another location before; structured `box` values and embedded rules whose action writes into its bound values; `ancestorFault`: a provider that cannot open one ancestor (inherited operations must fail)",
 		Floor: [2]int{200, 2000},
 		Assumptions: []string{"lib/ref.Loc + lib/ref.Match per location; expected inherited result = union over the transitive parents, each fact once", "rule ids are unique across locations (the same id in child and parent is the documented duplicate-id error, exercised in C10)"},
 		Stages: []Stage{
@@ -217,7 +217,7 @@ func init() {
 func init() {
 	properties["C15"] = Property{
 		Level: "exploration",
-		Rule:  "one case = one step of a history over 3 locations sharing 2 rule ids: add scheduled rule (one-shot +d, !time, recurring), overwrite by ordinary rule / by plain fact, RemRule, RemFact, cascade delete through deleteWith, Clear, reload of all locations; persistent and ephemeral recording Cronner; both states; after the step registrations are compared with the model's live scheduled rules per location and a tick is delivered for every current or former registration; plus timed scenarios (expiry of a scheduled rule; the real built-in cron through sys.System with +1s rules of one id in two locations, canary-judged); non-trivial = the set of live scheduled rules changed or a tick was delivered; distinct by canonical JSON of (state, cron kind, history prefix)",
+		Rule:  "one case = one step of a history over 3 locations sharing 2 rule ids: add scheduled rule (one-shot +d, !time, recurring), overwrite by ordinary rule / by plain fact, RemRule, RemFact, cascade delete through deleteWith, Clear, reload of all locations; persistent and ephemeral recording Cronner; both states; after the step registrations are compared with the model's live scheduled rules per location and a tick is delivered for every current or former registration; plus timed scenarios (expiry of a scheduled rule; the real built-in cron through sys.System with +1s rules of one id in two locations, canary-judged); non-trivial = the set of live scheduled rules changed or a tick was delivered; distinct by canonical JSON of (state, cron kind, history prefix); every third scheduled-rule version has a condition without solution; `eventText` (the text registered with the cron service for rule ids with quotes, backslash-u, injected JSON); `noOccurrence` (replacement by and restart with a rule whose schedule never occurs, built-in cron on bolt)",
 		Floor: [2]int{150, 1500},
 		Assumptions: []string{"the recording Cronner keys jobs by (location, id), i.e. it reports what the engine asked for", "stale registrations are attributed to open findings by the kind of step that should have removed them"},
 		Stages: []Stage{
@@ -230,7 +230,7 @@ func init() {
 func init() {
 	properties["C16"] = Property{
 		Level: "exploration",
-		Rule:  "one case = one job life (add -> fire / remove / replace) in a recorded run; in-memory cron: 13 runs per round in parallel (directed patterns: remove the head and stay quiet, replace the head by a later time, add earlier than the head, add during suspension, pause, remove a recurring job during its run, replace a recurring job (or remove and re-add it) so that old and new callback run at the same time and the old one returns first, recurring + one-shot; and random mixes over 4 ids with due 50-800 ms, removals, suspend/resume/pause windows, slow callbacks), Timeline walked under the cron's lock at quiescent points; Bolt-backed cron (overlay test in package main): operation sequences with harness-driven work() ticks, fires observed as hits on an httptest server, jobs<p>/time<p> buckets compared key for key after every operation and after every close/reopen; then a concurrent phase: a goroutine loops over the work() transactions of all partitions against an endpoint that holds each request open 40-120 ms while Add/Delete/Get run, with Deletes issued at the moment a request of that job is in flight (no request after Delete returned, none before due, recurring not more often than its occurrences, buckets compared at quiescent points); non-trivial = the job was replaced, removed, or overlapped a suspend/pause window (crolt: was deleted, duplicated or lived across a reopen); distinct by (run seed, pattern, job id, generation); in-memory patterns added in round 2: a recurring callback that returns an error once, 8 concurrent Adds of one id (twice) then Rem, schedules without an occurrence (30 February) or years away; crolt prelude: re-add of a fired one-shot's id inside the eviction window",
+		Rule:  "one case = one job life (add -> fire / remove / replace) in a recorded run; in-memory cron: 13 runs per round in parallel (directed patterns: remove the head and stay quiet, replace the head by a later time, add earlier than the head, add during suspension, pause, remove a recurring job during its run, replace a recurring job (or remove and re-add it) so that old and new callback run at the same time and the old one returns first, recurring + one-shot; and random mixes over 4 ids with due 50-800 ms, removals, suspend/resume/pause windows, slow callbacks), Timeline walked under the cron's lock at quiescent points; Bolt-backed cron (overlay test in package main): operation sequences with harness-driven work() ticks, fires observed as hits on an httptest server, jobs<p>/time<p> buckets compared key for key after every operation and after every close/reopen; then a concurrent phase: a goroutine loops over the work() transactions of all partitions against an endpoint that holds each request open 40-120 ms while Add/Delete/Get run, with Deletes issued at the moment a request of that job is in flight (no request after Delete returned, none before due, recurring not more often than its occurrences, buckets compared at quiescent points); non-trivial = the job was replaced, removed, or overlapped a suspend/pause window (crolt: was deleted, duplicated or lived across a reopen); distinct by (run seed, pattern, job id, generation); in-memory patterns added in round 2: a recurring callback that returns an error once, 8 concurrent Adds of one id (twice) then Rem, schedules without an occurrence (30 February) or years away; crolt prelude: re-add of a fired one-shot's id inside the eviction window; `command-burst` (14 Pause calls in a row, then the pending job must fire); seven bursts of concurrent Adds",
 		Floor: [2]int{30, 100},
 		Assumptions: []string{"no-early-fire and no-fire-after-Rem are judged on monotonic call/return stamps; 'fires when due' is bounded progress (due + 1.5 s, outside suspend/pause windows) judged only when a canary timer was on time", "crolt: a job's due time is the time in its own TId key (jitter set to 0)"},
 		Stages: []Stage{
@@ -244,7 +244,7 @@ func init() {
 func init() {
 	properties["C17"] = Property{
 		Level: "exploration",
-		Rule:  "cases: (twin) one request of a generated history over 3 locations executed under TTL {never, 1 ms, forever} x CheckExistence {off, on} x state {indexed, linear} and directly on core.Locations, all results compared (histories include `!cacheTTL` property facts with numeric and non-numeric values and clearing a location); with existence checking also requests to a never-created location (must fail, no trace in storage or cache); (first) one round of 8 concurrent first requests with seeded delays in sys.open.gap / sys.storage.gap, every fourth round a forced schedule (first opener parked in the gap); (overlap) one recorded register history of 3-5 overlapping clients under TTL never with requests held open by a sleeping action, checked per key by porcupine; non-trivial = the configurations differ in TTL and a location was re-opened (twin), always for first/overlap; distinct by (seed, history, configuration, request index); twin: a never-created location named as a parent and opened by an inherited search must still refuse direct requests; overlap: `slowEventReads` (an action notes its own clock, reads and writes while a client's write is acknowledged: a read later than the acknowledgement must contain it; TTL never / forever / 1 h)",
+		Rule:  "cases: (twin) one request of a generated history over 3 locations executed under TTL {never, 1 ms, forever} x CheckExistence {off, on} x state {indexed, linear} and directly on core.Locations, all results compared (histories include `!cacheTTL` property facts with numeric and non-numeric values and clearing a location); with existence checking also requests to a never-created location (must fail, no trace in storage or cache); (first) one round of 8 concurrent first requests with seeded delays in sys.open.gap / sys.storage.gap, every fourth round a forced schedule (first opener parked in the gap); (overlap) one recorded register history of 3-5 overlapping clients under TTL never with requests held open by a sleeping action, checked per key by porcupine; non-trivial = the configurations differ in TTL and a location was re-opened (twin), always for first/overlap; distinct by (seed, history, configuration, request index); twin: a never-created location named as a parent and opened by an inherited search must still refuse direct requests; overlap: `slowEventReads` (an action notes its own clock, reads and writes while a client's write is acknowledged: a read later than the acknowledgement must contain it; TTL never / forever / 1 h); first: `firstGhost` (6 concurrent requests to a never-created location under existence checking + one to another location, 30 s watchdog); twin: create / add / DeleteLocation / add tail",
 		Floor: [2]int{40, 400},
 		Assumptions: []string{"load counts are read from GetStats().NewLocations and storage through PeekStorage (System offers no storage injection)", "the directly operated locations get the same cron hooks as the System wires (they make removing an absent id an error)"},
 		Stages: []Stage{
@@ -258,7 +258,7 @@ func init() {
 func init() {
 	properties["C18"] = Property{
 		Level: "exploration",
-		Rule:  "one case = (logical request of a generated history over the /api/loc/* family, rendering) with renderings {query parameters with /api, without /api, with a /v1.0 prefix, form body (with and without /api), JSON body (also under /v1.0/api), YAML body sniffed at the operation URI, /api/json envelope and /api/yaml and ProcessRequest with the uri spelled /api.., without /api, with a version prefix, element of /api/sys/util/batch under each spelling, and the whole history as one batch with the spelling varied per element}, each rendering on its own fresh engine, compared (status and normalised JSON result) with service.ProcessRequest called directly; arguments include strings that need URL/JSON/YAML escaping (in values, ids and location names); the histories include the one-parameter operations admin/create, clear, delete, size and rules/list; the direct calls are also compared with a sys.System twin; plus negative cases (each required parameter missing, ill-typed parameters, a uri that is not a string, unknown URI, failing operations) through every rendering that can express them; non-trivial = the rendering is not the direct call and an argument needs escaping, or the case is negative; distinct by (seed, history, request index, rendering); ids with quote and backslash; rules with a throwing condition and serial rules with a failing action (failing events); negatives with empty JSON-typed parameters",
+		Rule:  "one case = (logical request of a generated history over the /api/loc/* family, rendering) with renderings {query parameters with /api, without /api, with a /v1.0 prefix, form body (with and without /api), JSON body (also under /v1.0/api), YAML body sniffed at the operation URI, /api/json envelope and /api/yaml and ProcessRequest with the uri spelled /api.., without /api, with a version prefix, element of /api/sys/util/batch under each spelling, and the whole history as one batch with the spelling varied per element}, each rendering on its own fresh engine, compared (status and normalised JSON result) with service.ProcessRequest called directly; arguments include strings that need URL/JSON/YAML escaping (in values, ids and location names); the histories include the one-parameter operations admin/create, clear, delete, size and rules/list; the direct calls are also compared with a sys.System twin; plus negative cases (each required parameter missing, ill-typed parameters, a uri that is not a string, unknown URI, failing operations) through every rendering that can express them; non-trivial = the rendering is not the direct call and an argument needs escaping, or the case is negative; distinct by (seed, history, request index, rendering); ids with quote and backslash; rules with a throwing condition and serial rules with a failing action (failing events); negatives with empty JSON-typed parameters; renderings without Content-Length (chunked JSON body, form, envelope); ids padded with blanks; facts/replace with and without id and the take switch of facts/search in the histories; negatives: take on a read-only location, util/js without / with ill-typed code",
 		Floor: [2]int{300, 3000},
 		Assumptions: []string{"generated request ids and timing fields are normalised away", "`set` of /api/loc/parents is rendered in its canonical JSON-string form"},
 		Stages: []Stage{{Name: "encodings", Pkg: "./mon/c18", Procs: 2, Batches: [2]int{4, 8}, TimeoutS: [2]int{900, 3600}}},
